@@ -509,7 +509,9 @@ func (s *storage) cleanupArchetypes(target Entity) {
 			table := &s.tables[tables.tables[i]]
 
 			for _, rel := range table.relationIDs {
-				if rel.target.id == target.id {
+				// Also reset other targets that are already dead.
+				// This happens when several targets of the same table are removed in one batch.
+				if rel.target.id == target.id || (!rel.target.IsZero() && !s.entityPool.Alive(rel.target)) {
 					newRelations = append(newRelations, relationID{component: rel.component, target: Entity{}})
 				}
 			}
